@@ -15,7 +15,7 @@ CONSTANTS ZZero, ZOne, ZFromInt(_), ZToInt(_), ZSign(_), ZIsZero(_), ZNeg(_), ZA
           ZShl(_, _), ZShr(_, _), ZBitLen(_), ZTrailing(_), ZIsOdd(_),
           ZLowZero(_, _), ZBit(_, _), ZPow(_, _), ZPow2(_), ZDivFloor(_, _), ZMod(_, _),
           ZMk(_, _)
-INSTANCE MpiPost
+INSTANCE DecPost
 
 F(j) == Mpf(j.s, ZMk(0, j.m), j.e, j.bc)
 Zj(j) == ZMk(j.s, j.m)
@@ -106,6 +106,9 @@ Post(ev) ==
          IN DyCmpAbs(DySub(DyMul(rr, den), Dy(ZOne, 0)), Dy(ZOne, ev.x.k - p)) <= 0
     [] op = "same_repr" -> \* C40: copy / unpickled value has the identical raw representation, type and equality flags
          /\ Comps2(a[1]) = Comps2(a[2]) /\ ev.x.same_type /\ ev.x.equal
+    [] op = "from_str" -> PostFromStr(a[1].v, p, r, o)
+    [] op = "repr" -> PostReprRoundTrip(Arg(a[1]), a[2].v, p)
+    [] op = "nstr" -> PostNearestDigits(Arg(a[1]), a[2].v, ZToInt(Zj(a[3])))
     [] op = "none" -> TRUE
 
 (*************************** C17 / C33: constants ***************************)
